@@ -8,8 +8,8 @@ from gffutils import merge_criteria as mc
 from gv.model import dbutil
 
 ID = "C19"
-RULE = ("part 'clobber': (old database in {GFF3, GTF, GFF3 after an update}) x (new input in 3) x force x database path form; part 'reads': "
-        "every sequence of length <= 3 (quick) / <= 4 (thorough) over 17 read-style calls on 3 file databases, with a sqlite statement "
+RULE = ("part 'clobber': (old database in {GFF3, GTF, GFF3 after an update, GTF without inference}, opened in this process before or not) x (new input in 3) x force x database path form; part 'reads': "
+        "every sequence of length <= 3 (quick) / <= 4 (thorough) over 19 read-style calls on 4 file databases, with a sqlite statement "
         "trace on the connection and a canonical + byte comparison of the file after closing. Non-trivial = every execution (each has an "
         "existing database that must survive)")
 ASSUMPTIONS = [
@@ -25,6 +25,7 @@ GFF = [
     "c1\ts\texon\t15\t40\t.\t+\t.\tID=e2;Parent=m1",
     "c1\ts\texon\t60\t100\t.\t+\t.\tID=e3;Parent=m1",
     "c1\ts\tCDS\t5\t70\t.\t+\t0\tParent=m1",
+    "c1\ts\tpart\t2\t3\t.\t+\t.\tID=p1;Parent=e1",
 ]
 GTF = [
     'c1\ts\texon\t1\t20\t.\t-\t.\tgene_id "g1"; transcript_id "m1"; exon_number "1"; ID "x1";',
@@ -38,11 +39,11 @@ NEW = [
     ['c9\tz\texon\t7\t9\t.\t+\t.\tgene_id "n1"; transcript_id "nt1";'],
     ["##other directive", "c9\tz\tgene\t7\t9\t.\t+\t.\tID=g1", "c9\tz\tmRNA\t7\t9\t.\t+\t.\tID=n2;Parent=g1"],
 ]
-KINDS = ("gff3", "gtf", "gff3_updated")
+KINDS = ("gff3", "gtf", "gff3_updated", "gtf_noinfer")
 
 CALLS = ["getitem", "all_features", "features_of_type", "children", "parents", "region_str", "region_within", "interfeatures",
          "create_introns", "create_splice_sites", "merge", "children_bp", "children_bp_merge", "bed12", "counts", "listings",
-         "iter_by_parent_childs"]
+         "iter_by_parent_childs", "relatives_level3", "lookup_absent"]
 
 
 def bounds(tier):
@@ -60,9 +61,10 @@ def pristine(ctx, kind):
     if key not in ctx.memo:
         d = os.path.join(ctx.tmpdir, "c19-%s-%d" % (kind, os.getpid()))
         os.makedirs(d, exist_ok=True)
-        src = dbutil.write_text(d, "src.txt", "\n".join(GTF if kind == "gtf" else GFF) + "\n")
         path = os.path.join(d, "pristine.db")
-        db = gffutils.create_db(src, path, verbose=False, force=True)
+        kw = dict(disable_infer_genes=True, disable_infer_transcripts=True) if kind == "gtf_noinfer" else {}
+        src = dbutil.write_text(d, "src.txt", "\n".join(GTF if kind.startswith("gtf") else GFF) + "\n")
+        db = gffutils.create_db(src, path, verbose=False, force=True, **kw)
         if kind == "gff3_updated":
             u = dbutil.write_text(d, "upd.gff", "\n".join(UPD) + "\n")
             db.update(u, make_backup=False, verbose=False)
@@ -79,6 +81,10 @@ def body_clobber(ch, ctx):
     wd = ctx.fresh_dir()
     target = os.path.join(wd, "t.db")
     shutil.copyfile(ppath, target)
+    if ch.flag("old_database_opened_before"):
+        old = gffutils.FeatureDB(target)            # the old database was in use in this process a moment ago
+        list(old.all_features())
+        dbutil.close_db(old)
     text = "\n".join(NEW[ni]) + "\n"
     data = dbutil.write_text(wd, "new.txt", text) if via == "path" else text
     kw = dict(from_string=True) if via == "from_string" else {}
@@ -102,9 +108,17 @@ def body_clobber(ch, ctx):
         return
     if not ctx.check(raised is None, "force-import-raised", dict(sig, exc=type(raised).__name__), message=str(raised)[:200]):
         return
-    dbutil.close_db(db)
     fresh = gffutils.create_db(data, os.path.join(wd, "fresh.db"), verbose=False, **kw)
+    ctx.check(db.directives == fresh.directives and db.dialect == fresh.dialect
+              and [str(f) for f in db.all_features()] == [str(f) for f in fresh.all_features()],
+              "object-returned-by-forced-import-shows-old-database", sig, directives=db.directives, expected=fresh.directives,
+              fmt=db.dialect.get("fmt"), expected_fmt=fresh.dialect.get("fmt"))
+    dbutil.close_db(db)
     dbutil.close_db(fresh)
+    re = gffutils.FeatureDB(target)
+    ctx.check(re.directives == fresh.directives and re.dialect == fresh.dialect, "reopened-forced-import-shows-old-database", sig,
+              directives=re.directives, expected=fresh.directives)
+    dbutil.close_db(re)
     a, b = dbutil.canon(target), dbutil.canon(os.path.join(wd, "fresh.db"))
     ctx.outcome((kind, ni, force))
     ctx.check(a == b, "forced-import-differs-from-fresh-import", sig, got_ids=[r[0] for r in a["features"]],
@@ -115,7 +129,25 @@ def body_clobber(ch, ctx):
 
 
 def do_call(db, name, kind):
+    try:
+        return _do_call(db, name, kind)
+    except gffutils.FeatureNotFoundError:
+        return "not-found"        # a legitimate answer of a read (e.g. ids that exist only as relation parents)
+
+
+def _do_call(db, name, kind):
     tid = "m1"
+    if name == "relatives_level3":
+        ex = next(db.features_of_type("exon"))
+        return (len(list(db.children("g1", level=3))), len(list(db.parents(ex, level=3))), len(list(db.children("g1"))))
+    if name == "lookup_absent":
+        out = []
+        for key in ("g1", "m1", "nope", "exon_1", "G1"):
+            try:
+                out.append(db[key].id)
+            except gffutils.FeatureNotFoundError:
+                out.append(None)
+        return out
     if name == "getitem":
         return db["g1"].id
     if name == "all_features":
